@@ -268,12 +268,16 @@ pub(crate) enum Attack {
     /// every transaction of a block (a Merkle proof without lemmas) plus a made-up transaction
     /// the user asks for, under an index that is nobody's sibling: the library skips it
     TpFakeAmongAll,
+    /// one requested transaction answered twice (proved in its block AND listed as missing),
+    /// another requested one not answered at all: as many answers as requests
+    TpAnswerTwice,
+    BpAnswerTwice,
 }
 
 /// the kinds `gen_step` drew from before kinds were appended (the draw of an old seed keeps its meaning)
 const OLD_ATTACKS: u64 = 34;
 
-pub(crate) const ATTACKS: [Attack; 40] = [
+pub(crate) const ATTACKS: [Attack; 42] = [
     Attack::BpSwapHeader,
     Attack::BpSwapHeaderReproved,
     Attack::BpForgedHeader,
@@ -314,6 +318,8 @@ pub(crate) const ATTACKS: [Attack; 40] = [
     Attack::TpPrivateChain,
     Attack::TpIndexMax,
     Attack::TpFakeAmongAll,
+    Attack::TpAnswerTwice,
+    Attack::BpAnswerTwice,
 ];
 
 impl Attack {
@@ -1556,6 +1562,19 @@ fn mutate_bp(
             parts.headers[k] = fh.data();
             note = format!("forged header at height {} served with the proof of the real block", n);
         }
+        Attack::BpAnswerTwice => {
+            // two requested blocks on the chain: the first proved and reported missing, the last
+            // left out
+            if numbers.len() < 2 {
+                return None;
+            }
+            let first = chain.header(numbers[0]).hash();
+            let left_out = numbers.pop().unwrap();
+            let mut miss = missing.clone();
+            miss.push(first);
+            parts = bp_parts(chain, last, &numbers, miss)?;
+            note = format!("block {} proved and reported missing, block {} not answered", numbers[0], left_out);
+        }
         Attack::BpForgedTwin => {
             // a requested hash that is the hash of a forged header whose number is the number of
             // a requested block of the chain: serve both, the forged one second
@@ -1664,6 +1683,27 @@ fn mutate_tp(
             let p2 = p.as_builder().lemmas(lem.pack()).build();
             parts.filtered_blocks[j] = rebuild_fb(&parts.filtered_blocks[j], &|b| b.proof(p2.clone()));
             note = format!("last Merkle lemma of block {} dropped", bl[j].0);
+        }
+        Attack::TpAnswerTwice => {
+            // two requested transactions on the chain: the first proved and reported missing, the
+            // second left out
+            let total: usize = bl.iter().map(|b| b.1.len()).sum();
+            if total < 2 {
+                return None;
+            }
+            let (n0, idx0) = bl[0].clone();
+            let first = chain.block(n0).transaction(idx0[0]).unwrap().hash();
+            // drop one other requested transaction from the answer
+            let mut bl2 = bl.clone();
+            if bl2[0].1.len() >= 2 {
+                bl2[0].1.pop();
+            } else {
+                bl2.pop();
+            }
+            let mut miss = missing.clone();
+            miss.push(first);
+            parts = tp_parts(chain, last, &bl2, miss)?;
+            note = format!("a transaction of block {} proved and reported missing, another requested one not answered", n0);
         }
         Attack::TpFakeAmongAll => {
             // a requested made-up transaction and a block all of whose transactions are requested
@@ -2952,6 +2992,16 @@ pub fn run(opts: &Options, prop: &str) -> Report {
                                 }
                                 if r.chance(1, 3) {
                                     if let Some(h) = ctx.pick_header(&mut r, &Target::Unknown) {
+                                        ctx.fetch_header(&h, &mut sink, &mut rep);
+                                    }
+                                }
+                            } else if *a == Attack::TpAnswerTwice || *a == Attack::BpAnswerTwice {
+                                for _ in 0..r.range(2, 4) {
+                                    if *a == Attack::TpAnswerTwice {
+                                        if let Some(h) = ctx.pick_tx(&mut r, &Target::OnChain) {
+                                            ctx.fetch_tx(&h, &mut sink, &mut rep);
+                                        }
+                                    } else if let Some(h) = ctx.pick_header(&mut r, &Target::OnChain) {
                                         ctx.fetch_header(&h, &mut sink, &mut rep);
                                     }
                                 }
